@@ -141,16 +141,17 @@ theorem findAll_first' (s sub : List UInt8) (hs : sub ≠ []) (i : Nat)
 /-! ### exactRange -/
 
 /-- once the start token has been passed (no remaining token has offset `a`), the loop runs on to
-token `j` and stops there -/
-theorem go_after (a : Nat) :
-    ∀ (toks : List Tok), Ordered toks → (∀ t ∈ toks, 0 < t.len) → (∀ t ∈ toks, t.offset ≠ a) →
-      ∀ (j : Nat) (tj : Tok), toks[j]? = some tj → ∀ (idx start : Nat),
-        exactRange.go a (tj.offset + tj.len) toks idx start = (start, idx + j) := by
+token `j` — the last one that starts before `b` — and stops after it -/
+theorem go_after (a b : Nat) :
+    ∀ (toks : List Tok), Ordered toks → (∀ t ∈ toks, t.offset ≠ a) →
+      ∀ (j : Nat) (tj : Tok), toks[j]? = some tj → tj.offset < b →
+        (∀ tn, toks[j + 1]? = some tn → b ≤ tn.offset) → ∀ (idx start stop : Nat),
+        exactRange.go a b toks idx start stop = (start, idx + j) := by
   intro toks
   induction toks with
-  | nil => intro _ _ _ j tj hj; simp at hj
+  | nil => intro _ _ j tj hj; simp at hj
   | cons t ts ih =>
-    intro ho hpos hne j tj hj idx start
+    intro ho hne j tj hj hb hnext idx start stop
     unfold Ordered at ho
     rw [List.pairwise_cons] at ho
     have hta : t.offset ≠ a := hne t (List.mem_cons_self)
@@ -158,30 +159,36 @@ theorem go_after (a : Nat) :
     | zero =>
       have : t = tj := by simpa using hj
       subst this
-      simp [exactRange.go, hta]
+      have hns : ¬ (t.offset ≥ b) := by omega
+      cases ts with
+      | nil => simp [exactRange.go, hta, hns]
+      | cons tn tr =>
+        have hn : b ≤ tn.offset := hnext tn (by simp)
+        have hna : tn.offset ≠ a := hne tn (by simp)
+        simp [exactRange.go, hta, hns, hn, hna]
     | succ k =>
       have hk : ts[k]? = some tj := by simpa using hj
       have hmem : tj ∈ ts := List.mem_of_getElem? hk
       have h1 := ho.1 tj hmem
-      have h2 := hpos tj (List.mem_cons_of_mem _ hmem)
-      have hns : ¬ (t.offset + t.len ≥ tj.offset + tj.len) := by omega
-      have := ih ho.2 (fun x hx => hpos x (List.mem_cons_of_mem _ hx))
-        (fun x hx => hne x (List.mem_cons_of_mem _ hx)) k tj hk (idx + 1) start
+      have hns : ¬ (t.offset ≥ b) := by omega
+      have := ih ho.2 (fun x hx => hne x (List.mem_cons_of_mem _ hx)) k tj hk hb
+        (fun tn h => hnext tn (by simpa using h)) (idx + 1) start idx
       simp only [exactRange.go, hta, if_false, hns]
       rw [this]
       congr 1
       omega
 
-theorem go_spec :
+theorem go_spec (b : Nat) :
     ∀ (toks : List Tok), Ordered toks → (∀ t ∈ toks, 0 < t.len) →
       ∀ (i j : Nat) (ti tj : Tok), toks[i]? = some ti → toks[j]? = some tj → i ≤ j →
-        ∀ (idx start : Nat),
-          exactRange.go ti.offset (tj.offset + tj.len) toks idx start = (idx + i, idx + j) := by
+        tj.offset < b → (∀ tn, toks[j + 1]? = some tn → b ≤ tn.offset) →
+        ∀ (idx start stop : Nat),
+          exactRange.go ti.offset b toks idx start stop = (idx + i, idx + j) := by
   intro toks
   induction toks with
   | nil => intro _ _ i j ti tj hi; simp at hi
   | cons t ts ih =>
-    intro ho hpos i j ti tj hi hj hij idx start
+    intro ho hpos i j ti tj hi hj hij hb hnext idx start stop
     have ho' := ho
     unfold Ordered at ho'
     rw [List.pairwise_cons] at ho'
@@ -191,22 +198,28 @@ theorem go_spec :
     | zero =>
       have : t = ti := by simpa using hi
       subst this
+      have hne : ∀ x ∈ ts, x.offset ≠ t.offset := by
+        intro x hx
+        have := ho'.1 x hx
+        omega
       cases j with
       | zero =>
         have : t = tj := by simpa using hj
         subst this
-        simp [exactRange.go]
+        have hns : ¬ (t.offset ≥ b) := by omega
+        cases ts with
+        | nil => simp [exactRange.go, hns]
+        | cons tn tr =>
+          have hn : b ≤ tn.offset := hnext tn (by simp)
+          have hna : tn.offset ≠ t.offset := hne tn (by simp)
+          simp [exactRange.go, hns, hn, hna]
       | succ k =>
         have hk : ts[k]? = some tj := by simpa using hj
         have hmem : tj ∈ ts := List.mem_of_getElem? hk
         have h1 := ho'.1 tj hmem
-        have h2 := hpos tj (List.mem_cons_of_mem _ hmem)
-        have hns : ¬ (t.offset + t.len ≥ tj.offset + tj.len) := by omega
-        have hne : ∀ x ∈ ts, x.offset ≠ t.offset := by
-          intro x hx
-          have := ho'.1 x hx
-          omega
-        have := go_after t.offset ts ho'.2 hpos' hne k tj hk (idx + 1) idx
+        have hns : ¬ (t.offset ≥ b) := by omega
+        have := go_after t.offset b ts ho'.2 hne k tj hk hb
+          (fun tn h => hnext tn (by simpa using h)) (idx + 1) idx idx
         simp only [exactRange.go, if_true, hns, if_false]
         rw [this]
         congr 1
@@ -220,22 +233,44 @@ theorem go_spec :
         have hmemi : ti ∈ ts := List.mem_of_getElem? hm
         have hmemj : tj ∈ ts := List.mem_of_getElem? hk
         have h1 := ho'.1 tj hmemj
-        have h2 := hpos tj (List.mem_cons_of_mem _ hmemj)
         have h3 := ho'.1 ti hmemi
-        have hns : ¬ (t.offset + t.len ≥ tj.offset + tj.len) := by omega
+        have hns : ¬ (t.offset ≥ b) := by omega
         have hta : t.offset ≠ ti.offset := by omega
-        have := ih ho'.2 hpos' m k ti tj hm hk (by omega) (idx + 1) start
+        have := ih ho'.2 hpos' m k ti tj hm hk (by omega) hb
+          (fun tn h => hnext tn (by simpa using h)) (idx + 1) start idx
         simp only [exactRange.go, hta, if_false, hns]
         rw [this]
         congr 1 <;> omega
 
-theorem exact_token_range' (toks : List Tok) (ho : Ordered toks) (hpos : ∀ t ∈ toks, 0 < t.len) (i j : Nat)
-    (ti tj : Tok) (hi : toks[i]? = some ti) (hj : toks[j]? = some tj) (hij : i ≤ j) :
-    exactRange toks ti.offset (tj.offset + tj.len) = (i, j) := by
-  have := go_spec toks ho hpos i j ti tj hi hj hij 0 0
+theorem exact_token_range_trailing' (toks : List Tok) (ho : Ordered toks) (hpos : ∀ t ∈ toks, 0 < t.len)
+    (i j : Nat) (ti tj : Tok) (b : Nat) (hi : toks[i]? = some ti) (hj : toks[j]? = some tj) (hij : i ≤ j)
+    (hb : tj.offset < b) (hnext : ∀ tn, toks[j + 1]? = some tn → b ≤ tn.offset) :
+    exactRange toks ti.offset b = (i, j) := by
+  have := go_spec b toks ho hpos i j ti tj hi hj hij hb hnext 0 0 0
   unfold exactRange
   rw [this]
   simp
+
+theorem exact_token_range' (toks : List Tok) (ho : Ordered toks) (hpos : ∀ t ∈ toks, 0 < t.len) (i j : Nat)
+    (ti tj : Tok) (hi : toks[i]? = some ti) (hj : toks[j]? = some tj) (hij : i ≤ j) :
+    exactRange toks ti.offset (tj.offset + tj.len) = (i, j) := by
+  have hjpos := hpos tj (List.mem_of_getElem? hj)
+  refine exact_token_range_trailing' toks ho hpos i j ti tj _ hi hj hij (by omega) ?_
+  intro tn hn
+  have hlt : j < j + 1 := Nat.lt_succ_self j
+  have hjl : j + 1 < toks.length := by
+    rcases Nat.lt_or_ge (j + 1) toks.length with h | h
+    · exact h
+    · rw [List.getElem?_eq_none h] at hn; cases hn
+  have hp := List.pairwise_iff_getElem.1 ho j (j + 1) (by omega) hjl hlt
+  have e1 : toks[j] = tj := by
+    have := List.getElem?_eq_getElem (l := toks) (i := j) (by omega)
+    rw [this] at hj; exact Option.some.inj hj
+  have e2 : toks[j + 1] = tn := by
+    have := List.getElem?_eq_getElem hjl
+    rw [this] at hn; exact Option.some.inj hn
+  rw [e1, e2] at hp
+  exact hp
 
 /-! ### nearestExact -/
 
